@@ -926,15 +926,18 @@ def gen_site(r, idx):
             empty = kind == '204' or (kind in ('503', '500') and r.randrange(2) == 0)     # 5xx answers often carry no body at all
             pages['/robots.txt'] = dict({'status': int(kind), 'body': '' if empty else 'User-agent: *\nDisallow: /\n', 'ctype': 'text/plain'}, **slow)
         elif kind == 'redirect':
-            pages['/robots.txt'] = {'status': r.choice([301, 302, 307]), 'location': '/rb-moved.txt', 'body': ''}
-            pages['/rb-moved.txt'] = dict({'body': body, 'ctype': 'text/plain'}, **slow)
-            chain = ['/robots.txt', '/rb-moved.txt']
+            mp = r.choice(['/rb-moved.txt', '/old/robots.txt'])
+            pages['/robots.txt'] = {'status': r.choice([301, 302, 307]), 'location': mp, 'body': ''}
+            pages[mp] = dict({'body': body, 'ctype': 'text/plain'}, **slow)
+            chain = ['/robots.txt', mp]
         elif kind == 'redirect-x':
             others = [x for x in hosts if x != h]
             hx = r.choice(others) if others and r.randrange(3) else 'hx'
-            pages['/robots.txt'] = {'status': 302, 'location': 'http://%s:{PORT}/rb-%s.txt' % (hx, h), 'body': ''}
-            site.setdefault(hx, {})['/rb-%s.txt' % h] = dict({'body': body, 'ctype': 'text/plain'}, **slow)
-            chain = ['/robots.txt', (hx, '/rb-%s.txt' % h)]
+            # the file may itself be called robots.txt somewhere below the root of the other origin: it is still only the redirecting origin's rule file
+            xp = r.choice(['/rb-%s.txt', '/sites/%s/robots.txt', '/mirror/%s/robots.txt']) % h
+            pages['/robots.txt'] = {'status': 302, 'location': 'http://%s:{PORT}%s' % (hx, xp), 'body': ''}
+            site.setdefault(hx, {})[xp] = dict({'body': body, 'ctype': 'text/plain'}, **slow)
+            chain = ['/robots.txt', (hx, xp)]
         elif kind == 'loop':
             pages['/robots.txt'] = {'status': 302, 'location': '/robots.txt', 'body': ''}
             chain = ['/robots.txt'] * 21
